@@ -134,6 +134,14 @@ impl Monitor for DeliveryMon {
             if d.is_data {
                 self.routed_data += 1;
             }
+            // coverage: a routing decision taken while every usable uplink's backlog has reached its window
+            // (window / (in-flight + queued + 1) floors to 0 on all of them)
+            {
+                let usable: Vec<&LinkSnap> = rec.pre.iter().filter(|l| l.usable(t, self.timeout)).collect();
+                if !usable.is_empty() && usable.iter().all(|l| (l.in_flight as i64 + l.queued as i64 + 1) > l.window as i64) {
+                    rep.count("c01.arms_with_every_usable_link_at_score_zero");
+                }
+            }
             if let Some(u) = uniq {
                 self.pending.entry(u).or_default().push_back(k);
                 // threshold rule: the link that just took a packet is below its regime threshold afterwards
